@@ -19,6 +19,17 @@ Theorem C16_independent : forall members r targets, NoDup members -> members <> 
               = map (fun t => firstn (Nat.min (length members) r) t) targets.
 Proof. exact place_copy_surjective. Qed.
 
+(* uniformity ("partitions spread over the cluster"): rand.Shuffle over member lists without duplicates is a bijection
+   between canonical draw vectors (step i draws from [0, i], as rand.Intn(i+1) does) and orders of the members - every
+   order, hence every choice of a partition's replicas, is produced by exactly one draw vector, so uniform draws give
+   each order the same probability 1/N! *)
+Theorem C16_uniform : forall members t, NoDup members -> Permutation t members ->
+  exists ds, (canon (length members - 1) ds /\ fst (shuffle ds members) = t) /\
+             forall ds', canon (length members - 1) ds' -> fst (shuffle ds' members) = t -> ds' = ds.
+Proof. exact shuffle_bijective. Qed.
+Example C16_uniform_nonvacuous : canon 2 [1; 0] /\ fst (shuffle [1; 0] [7; 8; 9]) = [9; 7; 8].
+Proof. split; [simpl; lia|reflexivity]. Qed.
+
 (* regression: with the aliased slices all partitions are the same list, whatever the seed *)
 Theorem C16_alias_refuted : forall members p r draws,
   exists c, place false p r draws members = repeat c (length (place false p r draws members)).
@@ -33,4 +44,5 @@ Qed.
 
 Print Assumptions C16_valid.
 Print Assumptions C16_independent.
+Print Assumptions C16_uniform.
 Print Assumptions C16_alias_refuted.
